@@ -7,7 +7,7 @@ import os
 
 import serverlib as sl
 import srvmon
-from common import (Rng, assumptions, coq_eval, coq_make, harness_build, hygiene, load_known, log, regen, seed,
+from common import (coqchk, Rng, assumptions, coq_eval, coq_make, harness_build, hygiene, load_known, log, regen, seed,
                     write_evidence, write_replay, TRUSTED_BASE, VERIF)
 
 ERR = ["ERROR"]
@@ -116,6 +116,10 @@ def run(prop, theorems, tier, replay=None, extra_gen=None, known_classifier=None
         op = [t for t in theorems if closed.get(t) != "closed"]
         if op:
             broken.append("not closed under the global context: %s" % op)
+    if thorough and ok_props:
+        okc, summ = coqchk(prop)
+        if not okc:
+            broken.append("independent checker: " + summ)
     okb, bout = harness_build("debug")
     if not okb:
         rp = write_replay(prop, "harness_build", {"what": "harness does not build against /repo", "log": bout[-4000:]})
